@@ -91,6 +91,9 @@ class Coordinator(object):
         self._rejoin_needed = True
         # are we shutting down?
         self._stopping = False
+        # has stop() been requested? (set before _stopping by ConsumerGroup,
+        # which first shuts its consumers down)
+        self._stop_requested = False
         # delayedcall for a pending rejoin
         self._rejoin_wait_dc = None
         # deferred for a rejoin in progress
@@ -273,9 +276,11 @@ class Coordinator(object):
         log.info("%s stopping with %s", self, errback_result)
         self._state = "[stopping]"
         self._stopping = True
+        self._stop_requested = True
         self._rejoin_needed = False
         if self._rejoin_wait_dc:
             self._rejoin_wait_dc.cancel()
+            self._rejoin_wait_dc = None
 
         if self._heartbeat_request_d:
             self._heartbeat_request_d.cancel()
@@ -414,7 +419,7 @@ class Coordinator(object):
             self.stop(errback_result=result)
             return
 
-        if self._stopping:
+        if self._stop_requested:
             # An error reply which arrives while we are stopping (e.g. while
             # waiting for the LeaveGroup response) must not re-arm the rejoin
             # timer: stop() has already cancelled it and won't do so again.
@@ -438,7 +443,7 @@ class Coordinator(object):
         if self._rejoin_wait_dc:
             self._rejoin_wait_dc = None
 
-        if not self._rejoin_needed:
+        if not self._rejoin_needed or self._stop_requested:
             log.debug("join_and_sync: rejoin not needed")
             return
 
@@ -463,14 +468,16 @@ class Coordinator(object):
     def _join_and_sync(self):
         self._state = "[fetching_broker]"
         coordinator_broker = yield self.get_coordinator_broker()
-        if not coordinator_broker or self._stopping:
+        if not coordinator_broker or self._stop_requested:
             return
         self.coordinator_broker = coordinator_broker
 
         self._state = "[joining]"
         yield self.on_join_prepare()
+        if self._stop_requested:
+            return
         join_response = yield self.send_join_group_request()
-        if not join_response or self._stopping:
+        if not join_response or self._stop_requested:
             # join failed, we'll be called again after a small delay
             return
 
@@ -499,13 +506,13 @@ class Coordinator(object):
                     topic_partitions=topic_partitions,
                 )
 
-        if self._stopping:
+        if self._stop_requested:
             # stop() was called while we were looking up the partitions
             return
 
         self._state = "[syncing]"
         sync_response = yield self.send_sync_group_request(assignments)
-        if not sync_response or self._stopping:
+        if not sync_response or self._stop_requested:
             # sync failed, we'll be called again after a small delay
             return
 
@@ -880,5 +887,12 @@ class ConsumerGroup(Coordinator):
         This waits for any ongoing processing to complete and commits offsets.
         It may take some time.
         """
+        # No (re)joining from here on: a rejoin while the consumers are being
+        # shut down would start new consumers which nothing would stop.
+        self._stop_requested = True
+        self._rejoin_needed = False
+        if self._rejoin_wait_dc:
+            self._rejoin_wait_dc.cancel()
+            self._rejoin_wait_dc = None
         yield self.shutdown_consumers()
         yield super(ConsumerGroup, self).stop(errback_result=errback_result)
